@@ -1,6 +1,6 @@
 (* Entry points evaluated by the correspondence harness (harness/c05.py). *)
 From Coq Require Import NArith List String Bool.
-From Verif Require Import Base.Chars Base.Show Scope.PySyntax Scope.Finder Scope.PySem.
+From Verif Require Import Base.Chars Base.Show Scope.PySyntax Scope.Finder Scope.PySem Scope.Fragment Scope.Check.
 Import ListNotations.
 Open Scope string_scope.
 
@@ -49,4 +49,11 @@ Definition run_all (bi : list name) (ns : list (list name)) (p : program) : stri
   show_obj [("fm", show_list show_dotted (find_missing bi ns p));
             ("scan", show_scan bi p);
             ("scandoc", show_scan_doc bi p);
+            ("stage", show_nat (stage_of p));
+            ("star_free", show_bool (star_free bi ns));
+            ("sound", show_bool (sound_b bi ns p));
+            ("precise", show_bool (precise_b bi ns p));
+            ("exact", show_bool (exact_b bi ns p));
+            ("ustage", show_nat (ustage_of bi ns p));
+            ("unused_ok", show_bool (unused_sound_b bi ns p));
             ("trace", run_pysem bi ns p)].
